@@ -163,6 +163,17 @@ def paths_rules(rep, prog):
                             tables.append((x, x[2][1], x[2][2], x[3]))
                         elif x[1] == "list" and len(x[3]) == 1 and x[3][0][1] == ("ext", "range", (("ext", "len", (("param", "A"),), ()),), ()):
                             tables.append((x, ("elem", x[3][0][1]), x[2], x[3]))
+    # ... or filled by a loop:  table = {}; for i in range(len(A)): table[i] = succ(i)
+    rng_A = ("ext", "range", (("ext", "len", (("param", "A"),), ()),), ())
+    for lid_, li_ in S.loopinfo.items():
+        if li_["func"] != q or li_["test"] is not None or li_["iter"] != rng_A:
+            continue
+        sts_ = [s_ for s_ in S.select("store", qname=q) if lid_ in s_.loops]
+        for nm_, init_ in li_["init"].items():
+            mine = [s_ for s_ in sts_ if s_.base == ("mu", lid_, nm_)]
+            if init_ in (("dict", ()), ("ext", "dict", (), ())) and len(mine) == 1 and len(sts_) == 1 and mine[0].idx == ("elem", rng_A) and mine[0].aug is None and \
+                    len(mine[0].loops) == 1 and not [c for c in mine[0].path if c not in (S.select("loop", qname=q)[0].path if S.select("loop", qname=q) else ())]:
+                tables.append((("after", lid_, nm_), ("elem", rng_A), mine[0].value, [(None, rng_A, ())]))
     seen_tb = []
     for tb, key_, val_, gens_ in tables:
         if tb in seen_tb:
